@@ -35,6 +35,9 @@ V(e) ==
     \* got.baseflag: after a further CLEAR, OPTION BASE 1 : DIM : ERASE of that array, subscript 0 is still refused (an explicit
     \* OPTION BASE is not dropped with the last array; only the implicit one DIM sets is) - CLEAR must forget how the base was set
     ELSE IF ~e.got.baseflag THEN "how_the_array_base_was_set_survived_clear"
+    \* set.insub: the operation ran two GOSUB levels deep and the code after it executed RETURN; got.stackgone: that RETURN raised
+    \* RETURN without GOSUB (nothing of the subroutine stack is left after RUN or any form of CHAIN)
+    ELSE IF e.set.insub /\ ~e.got.stackgone THEN "subroutine_stack_survived"
     ELSE "ok"
 INSTANCE OracleTrace WITH Verdict <- V
 =============================================================================
